@@ -213,7 +213,7 @@ def run_case_full(case):
     segs = [s2b(x) for x in G.split_at(case["stream"], case.get("cuts") or [])]
     items = REQ.parse_stream(stream)
     o = observe(segs, adj=adj, eof=True)
-    o.reparse_tolerant([it.method for it in items])
+    o.reparse_tolerant([it.method or it.lex_method for it in items])
     fails = compare(items, o, adj)
     labels = set()
     nontrivial = len(items) >= 2
